@@ -501,6 +501,9 @@ class Parser:
         """
         value = self._current_literal()
         if value is None:
+            if self._current_token.is_a(TokenTypes.TIME_PATTERN):
+                # _current_literal() has reported the invalid pattern.
+                return False
             inner_macro = self._context.get_macro(str(self._current_token))
             if inner_macro is None:
                 return self.token_error('Macro needs constant, got "{}"')
